@@ -83,6 +83,68 @@ impl Lit {
             }
         }
     }
+    /// The literal a text spells, for texts inside the generated domain (radix
+    /// prefixes in lower case, at least one integer digit, a non-empty
+    /// fraction if there is a dot, and a fraction or an exponent for `Dec`).
+    pub fn from_text(t: &str) -> Option<Lit> {
+        let (radix, prefix, rest) = match t.get(..2) {
+            Some("#b") => (2u32, true, &t[2..]),
+            Some("#o") => (8, true, &t[2..]),
+            Some("#x") => (16, true, &t[2..]),
+            Some("#d") => (10, true, &t[2..]),
+            _ => (10, false, t),
+        };
+        let (sign, rest) = match rest.as_bytes().first()? {
+            b'+' => (1u8, &rest[1..]),
+            b'-' => (2u8, &rest[1..]),
+            _ => (0u8, rest),
+        };
+        if rest.is_empty() || rest.len() > 420 {
+            return None;
+        }
+        if rest.chars().all(|c| c.is_digit(radix)) {
+            let trimmed = rest.trim_start_matches('0');
+            let (zeros, digits) = if trimmed.is_empty() { (rest.len() - 1, "0") } else { (rest.len() - trimmed.len(), trimmed) };
+            if zeros > 200 {
+                return None;
+            }
+            return Some(Lit::Int { radix, prefix, sign, zeros: zeros as u8, digits: digits.to_string() });
+        }
+        if radix != 10 || prefix {
+            return None;
+        }
+        let (mant, exp) = match rest.find(|c| c == 'e' || c == 'E') {
+            Some(i) => {
+                let e = &rest[i + 1..];
+                let (es, ed) = match e.as_bytes().first()? {
+                    b'+' => (1u8, &e[1..]),
+                    b'-' => (2u8, &e[1..]),
+                    _ => (0u8, e),
+                };
+                if ed.is_empty() || ed.len() > 24 || !ed.bytes().all(|b| b.is_ascii_digit()) {
+                    return None;
+                }
+                (&rest[..i], Some((rest.as_bytes()[i] == b'E', es, ed.to_string())))
+            }
+            None => (rest, None),
+        };
+        let (int_digits, frac) = match mant.split_once('.') {
+            Some((i, f)) => (i, Some(f)),
+            None => (mant, None),
+        };
+        if int_digits.is_empty() || !int_digits.bytes().all(|b| b.is_ascii_digit()) {
+            return None;
+        }
+        if let Some(f) = frac {
+            if f.is_empty() || !f.bytes().all(|b| b.is_ascii_digit()) {
+                return None;
+            }
+        }
+        if frac.is_none() && exp.is_none() {
+            return None;
+        }
+        Some(Lit::Dec { sign, int_digits: int_digits.to_string(), frac: frac.map(String::from), exp })
+    }
     fn neg(&self) -> bool {
         match self {
             Lit::Int { sign, .. } | Lit::Dec { sign, .. } => *sign == 2,
@@ -624,4 +686,26 @@ fn replay(_sub: &str, case: &Json) -> Option<CaseResult> {
         return Some(check_printed(&mv));
     }
     None
+}
+
+/// libFuzzer entry: a generated numeric literal or a printed number.
+pub fn fuzz(f: &mut FuzzIn) -> Option<CaseResult> {
+    match f.mode % 4 {
+        0 | 3 => {
+            // the bytes spell the literal: libFuzzer mutates digits, signs,
+            // prefixes and exponents directly
+            let (h, rest) = f.raw.split_first()?;
+            let lit = Lit::from_text(std::str::from_utf8(rest).ok()?)?;
+            debug_assert_eq!(lit.text(), std::str::from_utf8(rest).unwrap());
+            Some(check_lit(&lit, h & 1 == 1))
+        }
+        1 => {
+            let (l, d) = f.draw(&g_lit())?;
+            Some(check_lit(&l, d))
+        }
+        _ => {
+            let v = f.draw(&prop_oneof![g_float().prop_map(MV::F), g_int().prop_map(MV::int)])?;
+            Some(check_printed(&v))
+        }
+    }
 }
